@@ -264,3 +264,183 @@ class ScriptedKernel:
     def _energy_difference(self, *a, **k):
         sc = self._cur()
         return np.inf if sc['efired'] == 'yes' else -np.inf
+
+
+# ---------------------------------------------------------------------------------------------
+# Scripted worker pool (real fork) and noise tracing for the ensemble / masked sifts
+
+import json as _json
+import multiprocessing as _mp
+
+_ORIG = {}
+_TRACE_DIR = None
+_CUR_JOB = None
+_NCALL = 0
+
+
+def _traced_sift_with_noise(*args, **kw):
+    """module-level (hence picklable) wrapper: remembers which ensemble member this worker is running"""
+    global _CUR_JOB, _NCALL
+    _CUR_JOB = args[6] if len(args) > 6 else kw.get('job_ind')
+    _NCALL = 0
+    try:
+        return _ORIG['_sift_with_noise'](*args, **kw)
+    finally:
+        _CUR_JOB = None
+
+
+def _traced_sift(X, *args, **kw):
+    """module-level wrapper around emd.sift.sift: logs the array a member is sifted with"""
+    global _NCALL
+    if _CUR_JOB is not None and _TRACE_DIR:
+        _NCALL += 1
+        with open(os.path.join(_TRACE_DIR, '%d.ndjson' % os.getpid()), 'a') as f:
+            f.write(_json.dumps({'job': int(_CUR_JOB), 'pid': os.getpid(), 'call': _NCALL,
+                                 'x': [float(v) for v in np.asarray(X).ravel()]}) + '\n')
+    return _ORIG['sift'](X, *args, **kw)
+
+
+class NoiseTrace:
+    """Context manager: trace (member, pid, array sifted) for every ensemble member, in all processes."""
+
+    def __init__(self, emd, trace_dir):
+        self.sift = emd.sift
+        self.dir = trace_dir
+
+    def __enter__(self):
+        global _TRACE_DIR
+        os.makedirs(self.dir, exist_ok=True)
+        for f in os.listdir(self.dir):
+            os.unlink(os.path.join(self.dir, f))
+        _TRACE_DIR = self.dir
+        _ORIG['_sift_with_noise'] = self.sift._sift_with_noise
+        _ORIG['sift'] = self.sift.sift
+        self.sift._sift_with_noise = _traced_sift_with_noise
+        self.sift.sift = _traced_sift
+        return self
+
+    def __exit__(self, *a):
+        global _TRACE_DIR
+        self.sift._sift_with_noise = _ORIG['_sift_with_noise']
+        self.sift.sift = _ORIG['sift']
+        _TRACE_DIR = None
+
+    def read(self):
+        ev = []
+        for f in sorted(os.listdir(self.dir)):
+            for line in open(os.path.join(self.dir, f)):
+                ev.append(_json.loads(line))
+        return ev
+
+
+def _worker_loop(conn):
+    while True:
+        msg = conn.recv()
+        if msg is None:
+            break
+        idx, fn, args = msg
+        try:
+            conn.send((idx, True, fn(*args)))
+        except BaseException as e:
+            conn.send((idx, False, e))
+    conn.close()
+
+
+class ScriptedPool:
+    """Stand-in for multiprocessing.Pool that REALLY forks `processes` workers at construction (so that
+    process-global state - numpy's random generator, wrappers, the logger - is duplicated exactly as with the
+    real pool) and then runs job i on worker assign(i) and collects completions in a prescribed order.
+    The schedule is taken from the class attribute `schedule`:  dict(assigned=[worker per job, 1-based],
+    order=[job completion order, 1-based]); jobs beyond the schedule length wrap around."""
+    schedule = None
+    log = []
+
+    def __init__(self, processes=None, *a, **k):
+        self.w = int(processes or 1)
+        ctx = _mp.get_context('fork')
+        self.conns, self.procs = [], []
+        for i in range(self.w):
+            pc, cc = ctx.Pipe()
+            p = ctx.Process(target=_worker_loop, args=(cc,))
+            p.start()
+            cc.close()
+            self.conns.append(pc)
+            self.procs.append(p)
+
+    def starmap(self, fn, iterable, chunksize=None):
+        jobs = [tuple(a) for a in iterable]
+        sch = type(self).schedule or {}
+        asg = sch.get('assigned') or [1]
+        worker_of = [(asg[i % len(asg)] - 1) % self.w for i in range(len(jobs))]
+        for i, a in enumerate(jobs):
+            self.conns[worker_of[i]].send((i, fn, a))
+        order = [j - 1 for j in (sch.get('order') or []) if j - 1 < len(jobs)]
+        order += [i for i in range(len(jobs)) if i not in order]
+        # completions are received worker by worker in the prescribed order (each worker is FIFO)
+        res = [None] * len(jobs)
+        got = {}
+        for i in order:
+            while i not in got:
+                idx, ok, val = self.conns[worker_of[i]].recv()
+                got[idx] = (ok, val)
+        type(self).log.append({'njobs': len(jobs), 'workers': self.w, 'worker_of': worker_of, 'order': order})
+        for i in range(len(jobs)):
+            ok, val = got[i]
+            if not ok:
+                raise val
+            res[i] = val            # results are stored by job index
+        return res
+
+    def map(self, fn, iterable, chunksize=None):
+        return self.starmap(fn, [(a,) for a in iterable])
+
+    def close(self):
+        for c in self.conns:
+            try:
+                c.send(None)
+            except Exception:
+                pass
+        for p in self.procs:
+            p.join(10)
+        self.conns, self.procs = [], []
+
+    terminate = close
+
+    def join(self):
+        pass
+
+    def __enter__(self):
+        return self
+
+    def __exit__(self, *a):
+        self.close()
+
+    def __del__(self):
+        try:
+            self.close()
+        except Exception:
+            pass
+
+
+class _MpShim:
+    """what emd.sift sees as `mp` while a scripted pool is installed"""
+    def __init__(self):
+        self.Pool = ScriptedPool
+        self.current_process = _mp.current_process
+
+
+class UseScriptedPool:
+    def __init__(self, emd, schedule):
+        self.sift = emd.sift
+        self.schedule = schedule
+
+    def __enter__(self):
+        self.orig = self.sift.mp
+        ScriptedPool.schedule = self.schedule
+        ScriptedPool.log = []
+        self.sift.mp = _MpShim()
+        return self
+
+    def __exit__(self, *a):
+        self.sift.mp = self.orig
+        ScriptedPool.schedule = None
